@@ -677,7 +677,7 @@ def oracle(line, out):
     broken = pre = False
     if end != "none" or (be == "fcgi" and ended):
         if ref["kind"] == "nohead":
-            pre = not (be == "fcgi" and ended and False)
+            pre = True
         elif ref["kind"] == "badhead":
             pre = True
         elif ref["kind"] == "msg":
@@ -689,8 +689,6 @@ def oracle(line, out):
                 broken = not ref["complete"]
             else:
                 broken = (not ended) if be == "fcgi" else (not clean)
-            if be == "fcgi" and not ended and ref["framing"] == "cl":
-                broken = True                # the record stream itself did not end properly
     elif ref["kind"] == "badhead":
         pre = True
     elif ref["kind"] == "msg" and ref["badframing"]:
@@ -699,8 +697,11 @@ def oracle(line, out):
         if cend != "pend" and cv["status"] < 500:
             return M_PRE
         return None
+    if be == "fcgi" and not ended and end != "none" and not broken:
+        return None     # body complete by its own framing, record stream not: either outcome is acceptable
     if broken:
-        if cend != "pend" and cv["complete"] is True and cv["status"] < 500 and not nobody:
+        # (a 4xx/5xx status, be it the backend's or lighttpd's own error document, is not a success)
+        if cend != "pend" and cv["complete"] is True and cv["status"] < 400 and not nobody:
             if ver == 20:
                 return M_BROKEN_H2
             computed = cv.get("framing") == "cl" and not (ref["kind"] == "msg" and ref.get("framing") == "cl")
